@@ -129,6 +129,11 @@ var respFaults = []string{"{{ 1 / zero }}\n", "{{ MISSING_IDENT_SENTINEL }}\n", 
 	"@if(zero)PAGE-SENTINEL-a@elseif(MISSING_IDENT_SENTINEL.here)PAGE-SENTINEL-b@else PAGE-SENTINEL-c@end\n",
 	"@if(zero)PAGE-SENTINEL-a@elseif(zero)PAGE-SENTINEL-b@elseif(6 / zero)PAGE-SENTINEL-c@end\n",
 	"{{ \"PAGE-SENTINEL-arg\".echo(MISSING_IDENT_SENTINEL) }}\n", "{{ \"PAGE-SENTINEL-arg\".echo(1, 6 / zero) }}\n", "{{ rows.echoarr(rows, MISSING_IDENT_SENTINEL.x) }}\n",
+	// a missing property whose name starts with a capital, a digit-like or an underscore; a one-element array
+	// literal whose element fails; an object assigned to the reserved name inside a loop
+	"{{ user.Nmae }}\n", "{{ user['_id'] }}\n", "{{ user.X9.y }}\n", "@each(r in rows)PAGE-SENTINEL-inner{{ loop.Index }}@end\n",
+	"{{ [MISSING_IDENT_SENTINEL] }}\n", "{{ [6 / zero].join('-') }}\n", "@each(t in [MISSING_IDENT_SENTINEL])PAGE-SENTINEL-inner@end\n", "{{ [rows.nofn()].len() }}\n",
+	"@each(r in rows)PAGE-SENTINEL-inner{{ loop = {index: 7} }}@end\n", "@each(r in rows)PAGE-SENTINEL-inner{{ saved = loop }}{{ loop = saved }}@end\n",
 	// the message holds a percent sign
 	"{{ 7 % \"2\" }}\n", "{{ \"a\" % 3 }}\n",
 	// the page fails in a later pass of a loop, after the loop has produced output
@@ -143,7 +148,7 @@ func init() {
 	core.Register(&core.Check{
 		ID:    "C17",
 		Level: "exploration",
-		Rule: "cases are all combinations of {debug on, off} x {no custom error page, a valid one, one whose file is missing, one that fails at run time} x templates that succeed, fail at statement i of n for every i (n <= 4) at top level, in pass i of a loop, inside an insert block, inside the layout, inside a component file, inside a slot body, inside a component argument, inside a component argument the component never reads, inside the expression of a two-argument insert, or name an unknown template or a layout, x 20 run-time fault kinds (two with a percent sign in the message; the directory name holds one too); sequences of 2-4 configurations without a reset in between that differ in the debug flag only (the last one governs); the configurations follow each other in one process in seeded order (a stale page cached from another configuration would show). " +
+		Rule: "cases are all combinations of {debug on, off} x {no custom error page, a valid one, one whose file is missing, one that fails at run time} x templates that succeed, fail at statement i of n for every i (n <= 4) at top level, in pass i of a loop, inside an insert block, inside the layout, inside a component file, inside a slot body, inside a component argument, inside a component argument the component never reads, inside the expression of a two-argument insert, or name an unknown template or a layout, x 30 run-time fault kinds (two with a percent sign in the message; the directory name holds one too); sequences of 2-4 configurations without a reset in between that differ in the debug flag only (the last one governs); the configurations follow each other in one process in seeded order (a stale page cached from another configuration would show). " +
 			"A recording http.ResponseWriter captures body and writes; pages, identifiers, file names and the scratch directory carry sentinels, so 'part of the failed page', 'the message' and 'a path' are substring tests; the expected page is selected by the table of the statement. distinct_nontrivial = distinct (configuration, place, fault, position) combinations",
 		Assumptions: []string{
 			"configuration is set through NewTemplate after the verif reset hook (fields are sticky otherwise)",
@@ -415,7 +420,7 @@ func init() {
 						c.Violation("response:load-failed", fmt.Sprintf("the tree did not load: %v", lerr), desc)
 						return
 					}
-					data := map[string]any{"zero": 0, "rows": []int{0, 1, 2, 3}}
+					data := map[string]any{"zero": 0, "rows": []int{0, 1, 2, 3}, "user": map[string]any{"name": "n", "Id": 3}}
 					rec := newRecorder()
 					var rerr error
 					c.Eval(1)
